@@ -121,25 +121,69 @@ def RState.init (cx : Ctx) : RState :=
     steps := cx.egressFoot.foldl (fun f e => upd f e.stop { walk := e.time, dist := e.dist }) (fun _ => {}),
     exitC := fun _ => none, exitW := fun _ => MAX_INT, acc := fun _ => none }
 
+/-- footpath loop of the reverse scan, first half: a strictly later label replaces label and step
+    of the footpath's stop (`reverse_calculation.cpp:138-144`) -/
+def revFootLabel (c : Conn) (mw : Int) (s : RState) (f : NTD) : RState :=
+  if c.dep - f.time - mw > s.lab f.stop then
+    { s with lab := upd s.lab f.stop (c.dep - f.time - mw),
+             steps := upd s.steps f.stop { enter := some c, exit := s.exitC c.trip, walk := f.time, dist := f.dist } }
+  else s
+
+/-- may `c` become the boarding kept for its own stop? (`reverse_calculation.cpp:145-169`):
+    keep rule (after the `fix:`: departure minus minimum waiting on both sides), not before the
+    requested departure, first-waiting cap -/
+def revAccAccept (cx : Ctx) (c : Conn) (mw : Int) (s : RState) (f : NTD) : Bool :=
+  decide (f.stop = c.depStop) &&
+  ((s.acc f.stop).all fun a => a.enter.any fun e => decide (e.dep - e.effWait cx.p.minWait ≤ c.dep - mw)) &&
+  (decide (cx.depT = -1) || ((cx.nodesAccess c.depStop).any fun a => decide (c.dep - a.time - mw ≥ cx.depT))) &&
+  (decide (cx.depT = -1) || decide (cx.p.maxFirstWait < mw) ||
+    ((cx.nodesAccess c.depStop).any fun a => decide (c.dep - cx.depT - a.time ≤ cx.p.maxFirstWait)))
+
+/-- second half: the access candidate of the connection's own stop -/
+def revFootAcc (cx : Ctx) (c : Conn) (mw : Int) (s : RState) (f : NTD) : RState :=
+  if revAccAccept cx c mw s f then
+    { s with acc := upd s.acc f.stop (some { enter := some c, exit := s.exitC c.trip, walk := 0, dist := 0 }) }
+  else s
+
 /-- one iteration of the footpath loop of the reverse scan (`reverse_calculation.cpp:124-177`) -/
 def revFoot (cx : Ctx) (c : Conn) (mw : Int) (s : RState) (f : NTD) : RState :=
   if f.stop ≠ c.depStop ∧ s.lab f.stop > c.dep - mw then s
-  else if f.time ≤ cx.p.maxTransfer then
-    let s1 := if c.dep - f.time - mw > s.lab f.stop then
-        { s with lab := upd s.lab f.stop (c.dep - f.time - mw),
-                 steps := upd s.steps f.stop { enter := some c, exit := s.exitC c.trip, walk := f.time, dist := f.dist } }
-      else s
-    if f.stop = c.depStop ∧
-        ((s1.acc f.stop).all fun a => a.enter.any fun e => decide (e.dep - e.effWait cx.p.minWait ≤ c.dep - mw)) then
-      let accE := cx.nodesAccess c.depStop
-      if cx.depT = -1 ∨ (accE.any fun a => decide (c.dep - a.time - mw ≥ cx.depT)) then
-        if cx.depT = -1 ∨ cx.p.maxFirstWait < mw ∨
-            (accE.any fun a => decide (c.dep - cx.depT - a.time ≤ cx.p.maxFirstWait)) then
-          { s1 with acc := upd s1.acc f.stop (some { enter := some c, exit := s1.exitC c.trip, walk := 0, dist := 0 }) }
-        else s1
-      else s1
-    else s1
+  else if f.time ≤ cx.p.maxTransfer then revFootAcc cx c mw (revFootLabel c mw s f) f
   else s
+
+/-- minimum waiting time in force for the boarding a journey step starts with (0 if none) -/
+def enterWait (mw : Int) (js : JStep) : Int :=
+  match js.enter with
+  | some e => e.effWait mw
+  | none => 0
+
+/-- is `c` a "closer" exit for its trip than the current one? (`reverse_calculation.cpp:89-100`) -/
+def closerExit (cx : Ctx) (s : RState) (c : Conn) : Bool :=
+  let st := s.steps c.arrStop
+  st.enter.isSome && decide (st.walk ≥ 0) && decide (st.walk < s.exitW c.trip) &&
+    decide (c.arr + enterWait cx.p.minWait st ≤ s.lab c.arrStop)
+
+/-- the alighting part of one connection (`reverse_calculation.cpp:80-107`): the trip's exit
+    connection is set when the trip has none, or replaced by a "closer" one -/
+def revUnboard (cx : Ctx) (s : RState) (c : Conn) : RState :=
+  if c.canUnboard ∧ ((s.exitC c.trip).isNone ∨ closerExit cx s c) then
+    { s with exitC := upd s.exitC c.trip (some c), exitW := upd s.exitW c.trip (s.steps c.arrStop).walk }
+  else s
+
+/-- the boarding part (`reverse_calculation.cpp:109-178`) -/
+def revBoard (cx : Ctx) (single : Bool) (s1 : RState) (c : Conn) : RState :=
+  if c.canBoard ∧ (s1.exitC c.trip).isSome then
+    let mw := c.effWait cx.p.minWait
+    let s1' : RState := if single ∧ ¬ s1.reached ∧
+        ((cx.nodesAccess c.depStop).any fun (a : NTD) => decide (a.time ≠ -1)) then
+        { s1 with reached := true, tentAccDep := c.dep }
+      else s1
+    (cx.ds.rfootOf c.depStop).foldl (revFoot cx c mw) s1'
+  else s1
+
+/-- has the loop reached its `break` at connection `c`? -/
+def revBreak (cx : Ctx) (single : Bool) (s : RState) (c : Conn) : Bool :=
+  decide ((single ∧ s.reached ∧ cx.maxAccess ≥ 0 ∧ c.arr < s.tentAccDep - cx.maxAccess) ∨ cx.arrT - c.arr > cx.p.maxTotal)
 
 /-- one connection of the reverse scan; `usable` comes from the forward pass (all `true` for
     arrival-time queries) -/
@@ -147,32 +191,9 @@ def revStep (cx : Ctx) (usable : Nat → Bool) (single : Bool) (s : RState) (c :
   if s.stop then s else
   if ¬ (c.arr ≤ cx.arrT - (if single then cx.minEgress else 0)) then s else
   if ¬ (usable c.trip ∧ ¬ cx.disabled c.trip) then s else
-  if (single ∧ s.reached ∧ cx.maxAccess ≥ 0 ∧ c.arr < s.tentAccDep - cx.maxAccess)
-      ∨ cx.arrT - c.arr > cx.p.maxTotal then { s with stop := true } else
-  let tripExit := s.exitC c.trip
-  let labA := s.lab c.arrStop
-  if ¬ (tripExit.isSome ∨ labA ≥ c.arr) then s else
-  let s1 : RState := if c.canUnboard then
-      let st := s.steps c.arrStop
-      if tripExit.isNone then
-        { s with exitC := upd s.exitC c.trip (some c), exitW := upd s.exitW c.trip st.walk }
-      else if st.enter.isSome ∧ st.walk ≥ 0 ∧ st.walk < s.exitW c.trip then
-        let jmw := match st.enter with
-          | some e => e.effWait cx.p.minWait
-          | none => 0
-        if c.arr + jmw ≤ labA then
-          { s with exitC := upd s.exitC c.trip (some c), exitW := upd s.exitW c.trip st.walk }
-        else s
-      else s
-    else s
-  let s2 : RState := if c.canBoard ∧ (s1.exitC c.trip).isSome then
-      let mw := c.effWait cx.p.minWait
-      let s1' : RState := if single ∧ ¬ s1.reached ∧
-          ((cx.nodesAccess c.depStop).any fun (a : NTD) => decide (a.time ≠ -1)) then
-          { s1 with reached := true, tentAccDep := c.dep }
-        else s1
-      (cx.ds.rfootOf c.depStop).foldl (revFoot cx c mw) s1'
-    else s1
+  if revBreak cx single s c then { s with stop := true } else
+  if ¬ ((s.exitC c.trip).isSome ∨ s.lab c.arrStop ≥ c.arr) then s else
+  let s2 := revBoard cx single (revUnboard cx s c) c
   { s2 with count := s2.count + 1 }
 
 def revScan (cx : Ctx) (usable : Nat → Bool) (single : Bool) (start : Nat) : RState :=
